@@ -71,6 +71,7 @@ package jobcontroller
 //@        && finishNs(rj) + job.ttlSeconds(rj, cfg) * 1000000000 <= clock && jwKind[old(jwN)] == 4 && jwName[old(jwN)] == rj.Name
 //@   ensures [C13] deleted-once-expired: !deleting(rj) && rj.Status.Condition.Finished != nil && finishNs(rj) + job.ttlSeconds(rj, cfg) * 1000000000 <= old(clock) ==> jwN == old(jwN) + 1
 //@   ensures [C13] job-untouched: *rj == old(*rj)
+//@   ensures [C13,C20] log-append-only: forall i int :: i < old(jwN) ==> jwKind[i] == old(jwKind[i]) && jwOK[i] == old(jwOK[i])
 
 // ---- deleting tasks ---------------------------------------------------------------------------------------------------
 
@@ -384,3 +385,45 @@ package jobcontroller
 //@        && finishNs(result0) + job.ttlSeconds(result0, cfg) * 1000000000 <= old(clock)
 //@        ==> (exists i int :: old(jwN) <= i && i < jwN && jwKind[i] == 4 && jwName[i] == result0.Name)
 //@   ensures [C13] always-returns-a-job: result0 != nil
+//@   ensures [C13,C20] the-pass-itself-only-issues-job-deletes: jwN >= old(jwN) && jwN <= old(jwN) + 1 && (forall i int :: old(jwN) <= i && i < jwN ==> jwKind[i] == 4)
+//@        && (forall i int :: i < old(jwN) ==> jwKind[i] == old(jwKind[i]) && jwOK[i] == old(jwOK[i]))
+
+// ---- writing the result of a pass back (C20: a failed write is reported, so the Job is retried; C09/C11: only when it differs) -----
+// JSON comparisons of the parts that each write carries: ASSUMED deterministic relations
+//@ pure jobPartsEq(a *execution.Job, b *execution.Job) bool
+//@ pure jobStatusEq(a *execution.Job, b *execution.Job) bool
+//@ extern func IsJobEqual
+//@   params orig, updated
+//@   ensures result1 == nil ==> result0 == jobPartsEq(orig, updated)
+//@ extern func IsJobStatusEqual
+//@   params orig, updated
+//@   ensures result1 == nil ==> result0 == jobStatusEq(orig, updated)
+
+//@ func ExecutionControl.UpdateJob
+//@   tags C20, C09
+//@   requires c != nil && rj != nil && newRj != nil
+//@   modifies jwN, jwKind, jwObj, jwOK
+//@   ensures [C20] at-most-one-update: jwN == old(jwN) || (jwN == old(jwN) + 1 && jwKind[old(jwN)] == 2 && jwObj[old(jwN)] == newRj)
+//@   ensures [C20] failed-write-is-reported: jwN == old(jwN) + 1 && !jwOK[old(jwN)] ==> result1 != nil
+//@   ensures [C09] unchanged-object-is-not-written: result1 == nil && jobPartsEq(rj, newRj) ==> jwN == old(jwN)
+//@   ensures [C09] changed-object-is-written: result1 == nil && !jobPartsEq(rj, newRj) ==> jwN == old(jwN) + 1 && jwOK[old(jwN)] && result0
+//@   ensures [C20] log-append-only: forall i int :: i < old(jwN) ==> jwKind[i] == old(jwKind[i]) && jwObj[i] == old(jwObj[i]) && jwOK[i] == old(jwOK[i])
+
+//@ func ExecutionControl.UpdateJobStatus
+//@   tags C20, C11
+//@   requires c != nil && rj != nil && newRj != nil
+//@   modifies jwN, jwKind, jwObj, jwOK
+//@   ensures [C20] at-most-one-update: jwN == old(jwN) || (jwN == old(jwN) + 1 && jwKind[old(jwN)] == 3 && jwObj[old(jwN)] == newRj)
+//@   ensures [C20] failed-write-is-reported: jwN == old(jwN) + 1 && !jwOK[old(jwN)] ==> result1 != nil
+//@   ensures [C11] unchanged-status-is-not-written: result1 == nil && jobStatusEq(rj, newRj) ==> jwN == old(jwN)
+//@   ensures [C11] changed-status-is-written: result1 == nil && !jobStatusEq(rj, newRj) ==> jwN == old(jwN) + 1 && jwOK[old(jwN)] && result0
+//@   ensures [C20] log-append-only: forall i int :: i < old(jwN) ==> jwKind[i] == old(jwKind[i]) && jwObj[i] == old(jwObj[i]) && jwOK[i] == old(jwOK[i])
+
+// One reconcile of a Job key (C20): every error of the pass and every failed write is returned (the reconciler template then
+// re-queues the key without limit, MaxRequeues == -1); nothing is written for a Job that is not in the cache.
+//@ func Reconciler.SyncOne
+//@   tags C20, C09
+//@   requires w != nil && w.client != nil
+//@   modifies clock, wakeN, wakeKey, wakeAfter, jobtasks.delReq, jobtasks.forceReq, jobtasks.tcN, jobtasks.tcJob, jobtasks.tcRetry, jobtasks.tcIndex, jobtasks.tcOK, jobtasks.tcErr, jobtasks.tcTask, jwN, jwKind, jwObj, jwOK, jwName
+//@   ensures [C20] no-failed-write-goes-unreported: result == nil ==> (forall i int :: old(jwN) <= i && i < jwN && (jwKind[i] == 2 || jwKind[i] == 3) ==> jwOK[i])
+//@   ensures [C20] log-append-only: jwN >= old(jwN)
